@@ -498,3 +498,27 @@ func shortStack(s []string) string {
 	}
 	return strings.Join(out, ">")
 }
+
+// HasField reports whether the CPU struct (embedded structs included) has a field of that name.
+func (m *CPUModel) HasField(name string) bool {
+	var walk func(st *types.Struct) bool
+	walk = func(st *types.Struct) bool {
+		for i := 0; i < st.NumFields(); i++ {
+			f := st.Field(i)
+			if f.Name() == name {
+				return true
+			}
+			if f.Embedded() {
+				t := f.Type()
+				if p, ok := t.(*types.Pointer); ok {
+					t = p.Elem()
+				}
+				if es, ok := t.Underlying().(*types.Struct); ok && walk(es) {
+					return true
+				}
+			}
+		}
+		return false
+	}
+	return m.Struct != nil && walk(m.Struct)
+}
